@@ -110,3 +110,93 @@ def catalogue(spec, cls_name):
                 out.append({"obj": n, "attr": attr, "fault": fk, "value": val, "strong": strong})
         break   # one object per class is enough for the enumeration
     return out
+
+
+# ---------------------------------------------------------------------------------------------------
+# C15: edits that validation accepts and that make an update function raise.  Magnitudes are derived
+# from the current live state so that the real code really raises (naive ones do not fire).
+
+def _mag(q, unit):
+    import copy as _copy
+    return float(_copy.copy(q.value).to(unit).magnitude)
+
+
+def failing_edits(sim, rng):
+    """Candidate failing edits for the current state: [op dict with 'expect_site'], far (>= 5 %) from thresholds."""
+    import math
+    import numpy as np
+    from efootprint.abstract_modeling_classes.explainable_objects import EmptyExplainableObject
+    spec, w = sim.spec, sim.world
+    inside = S.closure(spec)
+    out = []
+
+    def setq(name, attr, mag, unit, site):
+        out.append({"op": "set", "obj": name, "attr": attr, "value": ["q", float(mag), unit], "fault": "F2",
+                    "expect_site": site, "label": f"{attr} of {name} (failing edit)"})
+
+    for n in inside:
+        o = spec["objs"][n]
+        cls, obj = o["cls"], w.objs[n]
+        f = rng.uniform(1.05, 3.0)
+        if cls in S.SERVER_CLASSES:
+            try:
+                ram = _mag(obj.ram, "GB")
+                comp_unit = str(obj.compute.value.units)
+                comp = _mag(obj.compute, comp_unit)
+                util = _mag(obj.server_utilization_rate, "dimensionless")
+                occ_ram = 0.0 if isinstance(obj.occupied_ram_per_instance, EmptyExplainableObject) else _mag(
+                    obj.occupied_ram_per_instance, "GB")
+                occ_comp = 0.0 if isinstance(obj.occupied_compute_per_instance, EmptyExplainableObject) else _mag(
+                    obj.occupied_compute_per_instance, comp_unit)
+            except Exception:
+                continue
+            setq(n, "base_ram_consumption", ram * util * f + 1.0, "GB", "update_available_ram_per_instance")
+            setq(n, "base_compute_consumption", comp * util * f + 1.0, comp_unit, "update_available_compute_per_instance")
+            if occ_ram > 0:
+                setq(n, "server_utilization_rate", occ_ram / ram / f, "dimensionless", "update_available_ram_per_instance")
+                if cls == "Server":
+                    setq(n, "ram", occ_ram / util / f, "GB", "update_available_ram_per_instance")
+                if cls == "GPUServer":
+                    setq(n, "ram_per_gpu", occ_ram / util / f / comp, "GB/gpu", "update_available_ram_per_instance")
+            if occ_comp > 0 and cls != "BoaviztaCloudServer":
+                setq(n, "compute", occ_comp / util / f, comp_unit, "update_available_compute_per_instance")
+            raw = obj.raw_nb_of_instances
+            if not isinstance(raw, EmptyExplainableObject):
+                peak = math.ceil(float(np.max(raw.value["value"].values._data)))
+                if peak >= 1:
+                    bad_fixed = ["q", peak - 0.5, "dimensionless"]
+                    if o["attrs"]["server_type"][1] == "on-premise":
+                        out.append({"op": "set", "obj": n, "attr": "fixed_nb_of_instances", "value": bad_fixed,
+                                    "fault": "F2", "expect_site": "update_nb_of_instances"})
+                    else:
+                        out.append({"op": "group", "fault": "F2", "expect_site": "update_nb_of_instances", "changes": [
+                            {"obj": n, "attr": "server_type", "value": ["s", "on-premise"]},
+                            {"obj": n, "attr": "fixed_nb_of_instances", "value": bad_fixed}]})
+        elif cls in ("VideoStreaming",):
+            srv = w.objs[o["attrs"]["server"][1]]
+            try:
+                cap = _mag(srv.ram, "GB") * _mag(srv.server_utilization_rate, "dimensionless")
+            except Exception:
+                continue
+            setq(n, "base_ram_consumption", cap * f + 1.0, "GB", "update_available_ram_per_instance")
+        elif cls == "GenAIModel":
+            cur = o["attrs"]["llm_memory_factor"]
+            setq(n, "llm_memory_factor", cur[1] * 1e4 * f, cur[2], "update_available_ram_per_instance")
+        elif cls == "Storage":
+            raw = obj.raw_nb_of_instances
+            if not isinstance(raw, EmptyExplainableObject):
+                peak = math.ceil(float(np.max(raw.value["value"].values._data)))
+                if peak >= 1:
+                    out.append({"op": "set", "obj": n, "attr": "fixed_nb_of_instances",
+                                "value": ["q", peak - 0.5, "dimensionless"], "fault": "F2",
+                                "expect_site": "update_nb_of_instances"})
+        elif cls in S.JOB_CLASSES:
+            if "data_stored" in o["attrs"] and cls in ("Job", "WebApplicationJob", "VideoStreamingJob"):
+                cur = o["attrs"]["data_stored"]
+                setq(n, "data_stored", -(abs(cur[1]) + 1.0) * 1e7 * f, cur[2], "update_full_cumulative_storage_need")
+            if cls == "Job":
+                setq(n, "request_duration", 0.0, "s", "update_hourly_data_transferred_per_usage_pattern")
+        elif cls == "UsagePattern":
+            out.append({"op": "set", "obj": n, "attr": "devices", "value": ["refs", []], "fault": "F2",
+                        "expect_site": "update_devices_energy"})
+    return out
